@@ -134,6 +134,11 @@ void LabelHandle(tStrComp const* pName, LargeWord Value, Boolean ForceGlobal) {
             for (pRun = StructStack; pRun->Next; pRun = pRun->Next) {
                 LabelEntryBias += pRun->SaveCurrPC;
             }
+        } else {
+            /* a duplicate element was destroyed by AddStructElem(): LabelModify() must
+               not touch it any more */
+
+            pLabelElement = NULL;
         }
     }
 
